@@ -652,10 +652,44 @@ def chunks_total(chunks):
     return t
 
 
-def h_download(c, lim='unlimited', reads=2, attempts=1, pre='fresh', offset_fault='ok', faults='basic'):
+def download_prestate(c, fs, transfer, pre, F):
+    """the download before the first attempt.  The progress counter is whatever the cache restored: any value, the file
+    system need not agree with it.
+    'fresh'      QUEUED, no local path yet, no file
+    'incomplete' INCOMPLETE, local path set, local file of any size
+    'requeued'   QUEUED (after FAILED/PAUSED), local path set, local file of any size
+    'missing'    QUEUED, local path set, the file is gone
+    'lost'       INCOMPLETE, local path set, the file is gone (cleaned download directory / restored from cache)"""
+    transfer.bytes_transfered = c.fresh_int('counter', 0, U64)
+    if pre == 'fresh':
+        set_state(transfer, S.QUEUED)
+        return
+    transfer.local_path = DL_PATH
+    if pre in ('incomplete', 'requeued'):
+        fs.files[DL_PATH] = LocalFile(c.fresh_int('local_size', 0, U64))
+    elif pre not in ('missing', 'lost'):
+        raise symex.HarnessError(pre)
+    set_state(transfer, S.INCOMPLETE if pre in ('incomplete', 'lost') else S.QUEUED)
+    transfer.filesize = F
+
+
+def local_file_event(c, fs, kind, tag):
+    """what happens to the partial file between two attempts, behind the back of the client: nothing / it is removed /
+    it is replaced by a file of any other size (shorter or longer than what the transfer counted)"""
+    c.reach('local_file_' + kind)
+    if kind == 'kept':
+        return
+    if kind == 'removed':
+        fs.files.pop(DL_PATH, None)
+    elif kind == 'resized':
+        fs.files[DL_PATH] = LocalFile(c.fresh_int(f'{tag}_resized_to', 0, U64))
+    else:
+        raise symex.HarnessError(kind)
+
+
+def h_download(c, lim='unlimited', reads=2, attempts=1, pre='fresh', offset_fault='ok', faults='basic', fs_event='kept'):
     """`attempts` consecutive download attempts of one transfer against a scripted uploader.
-    pre: 'fresh' (QUEUED, no local path) | 'incomplete' (INCOMPLETE, local file of symbolic size)
-       | 'requeued' (QUEUED after FAILED/PAUSED with a local file) | 'missing' (local path set, file gone)"""
+    pre: see download_prestate; fs_event: see local_file_event (applied before every attempt but the first)"""
     with Env(c) as env:
         loop, fs = env.loop, env.fs
         net = FakeNet()
@@ -665,17 +699,12 @@ def h_download(c, lim='unlimited', reads=2, attempts=1, pre='fresh', offset_faul
         transfer.state_listeners.append(mgr)
         mgr._transfers.append(transfer)
         F = c.fresh_int('filesize', 0, U64)
-        if pre == 'fresh':
-            set_state(transfer, S.QUEUED)
-        else:
-            transfer.local_path = DL_PATH
-            if pre != 'missing':
-                fs.files[DL_PATH] = LocalFile(c.fresh_int('local_size', 0, U64))
-            set_state(transfer, S.INCOMPLETE if pre == 'incomplete' else S.QUEUED)
-            transfer.filesize = F
+        download_prestate(c, fs, transfer, pre, F)
         for a in range(attempts):
             tag = f'a{a}'
-            size_before = fs.size(DL_PATH)
+            if a > 0:
+                local_file_event(c, fs, fs_event, tag)
+            size_before = fs.size(DL_PATH)       # the oracle: book-kept from the file system, not from the transfer
             appended_before = list(fs.files[DL_PATH].appended) if DL_PATH in fs.files else []
             of = offset_fault if a == 0 else 'ok'
             sender = Sender(c, env, tag, reads, of, faults)
@@ -691,17 +720,10 @@ def h_download(c, lim='unlimited', reads=2, attempts=1, pre='fresh', offset_faul
             loop.call(fut.set_result, conn)
             finished = settle(env, task)
             st = transfer.state.VALUE
-            sig = [lim, pre if a == 0 else 'retry', sender.fault or 'none']
+            sig = [lim, pre if a == 0 else ('retry' if fs_event == 'kept' else 'retry_file_' + fs_event), sender.fault or 'none']
             c.note('attempt', a, 'fault', sender.fault, 'state', st.name, 'reason', transfer.fail_reason,
                    'finished', finished, 'error', repr(task_error(task)))
 
-            # -- the offset on the wire is the size of the local file -----------------------
-            if sender.written:
-                c.reach('offset_sent')
-                off = wire_value(c, sender.written[0])
-                c.check(False if off is None else off == size_before, 'offset_is_local_size', sig=[lim, pre if a == 0 else 'retry'],
-                        info='offset sent to the uploader differs from the size of the local file' if off is not None
-                        else f'what was sent is not an 8-byte offset: {sender.written[0]!r}')
             # -- COMPLETE means intact ------------------------------------------------------
             f = fs.files.get(DL_PATH)
             if st == S.COMPLETE:
@@ -715,6 +737,13 @@ def h_download(c, lim='unlimited', reads=2, attempts=1, pre='fresh', offset_faul
                             info='COMPLETE but a chunk was stored at a file position different from its source offset')
                     c.check(Not(size_before > F) if c.symbolic else not (size_before > F),
                             'no_complete_beyond_size', sig=sig)
+            # -- the offset on the wire is the size of the local file (after the COMPLETE clauses, so that both decide) --
+            if sender.written:
+                c.reach('offset_sent')
+                off = wire_value(c, sender.written[0])
+                c.check(False if off is None else off == size_before, 'offset_is_local_size', sig=sig[:2],
+                        info='offset sent to the uploader differs from the size of the local file' if off is not None
+                        else f'what was sent is not an 8-byte offset: {sender.written[0]!r}')
             # -- a break leaves INCOMPLETE / FAILED(reason) and keeps the received prefix -------
             if sender.fault is not None:
                 c.reach('break_' + sender.fault)
@@ -1128,7 +1157,8 @@ class _PairCtrl(_Ctrl):
             self.peer_net.incoming_reply(self, m)
 
 
-def h_pair(c, lim='anysize', reads=2, segments=3, cuts=0, pre='fresh', attempts=1, backpressure=True, cut_kind='reset'):
+def h_pair(c, lim='anysize', reads=2, segments=3, cuts=0, pre='fresh', attempts=1, backpressure=True, cut_kind='reset',
+           fs_event='kept'):
     """the real downloader against the real uploader.  Control messages are handed to the real
     handlers (_on_peer_transfer_request, _on_peer_upload_failed) directly; the file connection is a
     pipe with symbolic segmentation and (in the first `cuts` attempts) a symbolic cut point; the ticket goes
@@ -1155,14 +1185,11 @@ def h_pair(c, lim='anysize', reads=2, segments=3, cuts=0, pre='fresh', attempts=
         down = Transfer('uploader', REMOTE, TransferDirection.DOWNLOAD)
         down.state_listeners.append(dmgr)
         dmgr._transfers.append(down)
-        if pre == 'fresh':
-            set_state(down, S.QUEUED)
-        else:
-            down.local_path = DL_PATH
-            fs.files[DL_PATH] = LocalFile(c.fresh_int('local_size', 0, U64))
-            set_state(down, S.INCOMPLETE)
+        download_prestate(c, fs, down, pre, F)
         for a in range(attempts):
             tag = f'a{a}'
+            if a > 0:
+                local_file_event(c, fs, fs_event, tag)
             fs.files[UL_PATH] = SourceFile(F, reads)
             link = Link(c, env, tag, a < cuts, segments, backpressure, cut_kind)
             uend = End(link, link.to_up, link.to_down, False)
@@ -1183,13 +1210,10 @@ def h_pair(c, lim='anysize', reads=2, segments=3, cuts=0, pre='fresh', attempts=
             loop.run_until_quiet(max_time=HORIZON)
             dtask = down._transfer_task
             ds, us = down.state.VALUE, up.state.VALUE
-            sig = [lim, ('cut_' + cut_kind) if link.cut is not None else 'nocut', pre if a == 0 else 'retry', 'window1' if backpressure else 'buffered']
+            sig = [lim, ('cut_' + cut_kind) if link.cut is not None else 'nocut', pre if a == 0 else ('retry' if fs_event == 'kept' else 'retry_file_' + fs_event), 'window1' if backpressure else 'buffered']
             c.note('attempt', a, 'down', ds.name, down.fail_reason, 'up', us.name, up.fail_reason, 'dead', link.dead,
                    'errors', repr(task_error(utask)), [repr(task_error(t)) for t in side])
             f = fs.files.get(DL_PATH)
-            if link.offset_wire is not None:
-                c.reach('pair_offset_sent')
-                c.check(link.offset_wire == size_before, 'offset_is_local_size', sig=sig)
             if ds == S.COMPLETE:
                 c.reach('pair_download_complete')
                 c.check(f is not None and not fs.removed and not fs.truncated, 'complete_file_present', sig=sig)
@@ -1198,6 +1222,9 @@ def h_pair(c, lim='anysize', reads=2, segments=3, cuts=0, pre='fresh', attempts=
                     c.check(And(*[pos == ch.src for pos, ch in f.appended]) if f.appended else True,
                             'complete_content_by_position', sig=sig,
                             info='COMPLETE but a chunk read at source offset s by the uploader is stored at another position')
+            if link.offset_wire is not None:
+                c.reach('pair_offset_sent')
+                c.check(link.offset_wire == size_before, 'offset_is_local_size', sig=sig)
             if us == S.COMPLETE:
                 c.reach('pair_upload_complete')
                 ow = None if isinstance(link.offset_wire, str) else link.offset_wire
@@ -1272,13 +1299,7 @@ def h_interleave(c, lim='unlimited', pre='fresh', inject_at=0, reoffer=True, rea
         transfer.state_listeners.append(mgr)
         mgr._transfers.append(transfer)
         F = c.fresh_int('filesize', 0, U64)
-        if pre == 'fresh':
-            set_state(transfer, S.QUEUED)
-        else:
-            transfer.local_path = DL_PATH
-            fs.files[DL_PATH] = LocalFile(c.fresh_int('local_size', 0, U64))
-            set_state(transfer, S.INCOMPLETE)
-            transfer.filesize = F
+        download_prestate(c, fs, transfer, pre, F)
         ctrl = _Ctrl()
         started = []                      # download tasks, in the order they were created
         real_init = mgr._initialize_download
@@ -1567,6 +1588,8 @@ META = {
               'limiter kind "anysize": take_tokens returns a fresh symbolic 1..2^62 (superset of the two real limiters, which are '
               'also run)'],
     'data_variables': ['announced filesize 0..2^64-1', 'local file size before the attempt 0..2^64-1',
+                       'progress counter Transfer.bytes_transfered before the first attempt 0..2^64-1 (as restored from the cache; '
+                       'independent of the file system)', 'size of the file that replaces the partial file between attempts 0..2^64-1',
                        'the 8 offset bytes on the wire (BV8 terms; real uint64.serialize on the download side, real '
                        'receive_transfer_offset / uint64.deserialize on the upload side)',
                        'transfer ticket 1..2^32-1 and its 4 bytes on the wire (real uint32.serialize / receive_transfer_ticket)', 'length of every chunk returned by a read (1..asked)',
@@ -1581,7 +1604,8 @@ META = {
                       'pair: exception class both ends see at the cut', 'how the uploader\'s wait-for-close ends: EOF / reset / junk then EOF / never',
                       'how the read of the offset ends on the uploader: ok / EOF / partial', 'number of data reads per attempt',
                       'number of attempts (1..3)', 'limiter: unlimited / limited(1 KiB/s) / anysize',
-                      'pre-state: fresh / incomplete / requeued / local file missing',
+                      'pre-state: fresh / incomplete / requeued / local path set but file gone (QUEUED: missing, INCOMPLETE: lost)',
+                      'what happens to the partial file between two attempts: kept / removed / replaced by a file of another (symbolic) size',
                       'pair: number of attempts that are cut (0..2), window of one write vs. unbounded buffering, whole write / piece per segment'],
     'bounds': {'quick': {'download': 'data reads per attempt <= 3 (1 attempt), <= 2 (2 attempts)', 'upload': 'file reads <= 3',
                          'pair': 'uploader file reads <= 2, TCP segments <= 3 per attempt, 1 attempt or cut + retry'},
@@ -1601,7 +1625,8 @@ META = {
                 'content dishonesty (a sender that sends other bytes than the file has at that offset cannot be detected by the protocol)',
                 'a remote file that changes between two attempts', 'a PeerTransferRequest without filesize',
                 'abort / pause / removal during the transfer (C03, C06)', 'choice of the download path (C09)'],
-    'assumptions': ['bytes already in the local file before the first attempt are a prefix of the remote file (induction hypothesis)',
+    'assumptions': ['bytes already in the local file before the first attempt (or in a file that replaced it) are a prefix of the remote '
+                    'file (induction hypothesis); the oracle for the offset is the file system at the moment of the attempt, never the transfer object',
                     'the local file is only written by this transfer', 'asyncio / async_timeout semantics of CPython 3.12'],
 }
 
@@ -1614,7 +1639,7 @@ def jobs(tier):
     all_req = dl_req + ['break_aborted', 'break_pipe', 'break_oserror', 'break_timedout']
     # one download attempt from every pre-state, every limiter; every way a socket read can fail
     for lim in ('unlimited', 'limited', 'anysize'):
-        for pre in ('fresh', 'incomplete', 'requeued', 'missing'):
+        for pre in ('fresh', 'incomplete', 'requeued', 'missing', 'lost'):
             full = (not q) or lim == 'unlimited' or pre == 'incomplete'
             out.append({'harness': 'download', 'fn': h_download,
                         'params': {'lim': lim, 'reads': K if not full else min(K, 4), 'attempts': 1, 'pre': pre,
@@ -1638,6 +1663,13 @@ def jobs(tier):
                             'params': {'lim': lim, 'reads': 2, 'attempts': 2, 'pre': pre, 'faults': 'all'}, 'requires': all_req})
                 out.append({'harness': 'download', 'fn': h_download,
                             'params': {'lim': lim, 'reads': 2, 'attempts': 3, 'pre': pre}, 'requires': dl_req})
+    # the partial file is removed / replaced by one of another size behind the client's back between two attempts
+    for ev in ('removed', 'resized'):
+        for pre in ('fresh', 'incomplete'):
+            for lim in (('anysize',) if q else ('anysize', 'unlimited')):
+                out.append({'harness': 'download', 'fn': h_download,
+                            'params': {'lim': lim, 'reads': 2 if q else 3, 'attempts': 2, 'pre': pre, 'fs_event': ev},
+                            'requires': dl_req + ['local_file_' + ev]})
     # one upload attempt against a scripted downloader
     for lim in ('unlimited', 'limited', 'anysize'):
         wf = 'all' if (lim == 'unlimited' or not q) else 'basic'
@@ -1661,6 +1693,17 @@ def jobs(tier):
                 out.append({'harness': 'pair', 'fn': h_pair,
                             'params': {'lim': lim, 'reads': R, 'segments': SEG, 'cuts': 1, 'pre': pre, 'attempts': 2,
                                        'backpressure': bp}, 'requires': cut_req})
+    # the local file is gone although the transfer counted bytes (first attempt), or disappears / changes size between attempts
+    for lim in (('anysize',) if q else ('anysize', 'unlimited')):
+        for bp in ((True,) if q else (True, False)):
+            out.append({'harness': 'pair', 'fn': h_pair,
+                        'params': {'lim': lim, 'reads': R, 'segments': SEG, 'cuts': 0, 'pre': 'lost', 'attempts': 1, 'backpressure': bp},
+                        'requires': ['pair_offset_sent', 'pair_both_complete', 'pair_faultfree_attempt', 'pair_end']})
+            for ev in ('removed', 'resized'):
+                out.append({'harness': 'pair', 'fn': h_pair,
+                            'params': {'lim': lim, 'reads': 2, 'segments': 2 if q else 3, 'cuts': 1, 'pre': 'fresh' if ev == 'removed' else 'incomplete',
+                                       'attempts': 2, 'backpressure': bp, 'fs_event': ev},
+                            'requires': cut_req + ['local_file_' + ev]})
     # the cut seen as each of the other error classes (then the retry)
     for kind in ('aborted', 'pipe', 'oserror', 'timedout'):
         for bp in ((True,) if q else (True, False)):
